@@ -100,9 +100,11 @@ def fixed(secs): return Agg('FixedOffset', 0, [S(secs)])
 UTC = lambda: Agg('Utc', 0, [])
 
 
-def cdt(local, off, zone):
-    """chrono::DateTime<Z>: local naive fields + offset seconds east + zone value"""
-    return Agg('chrono::DateTime', 0, [local, S(off), zone])
+def cdt(local, off, zone, utc=None):
+    """chrono::DateTime<Z>: local naive fields + offset seconds east + zone value + the instant (seconds since the epoch, UTC).
+    The instant is carried explicitly so that re-zoning into a zone whose offset is opaque (named IANA zones) keeps it."""
+    if utc is None: utc = naive_secs(local) - sx(off)
+    return Agg('chrono::DateTime', 0, [local, S(off), zone, S(utc)])
 
 
 def naive_secs(n):
@@ -133,6 +135,7 @@ def sx(x, bits=W):
 
 
 def utc_secs(dt):
+    if len(dt.fields) > 3 and dt.fields[3] is not None: return dt.fields[3]
     return naive_secs(dt.fields[0]) - sx(dt.fields[1])
 
 
@@ -254,12 +257,30 @@ class Cur:
     def end(s): return s.i >= len(s.t)
 
 
+_DIG = {}        # id of a numeric term built from decimal digit bytes -> those digits (text provenance)
+_DVAL = {}
+
+
 def dval(ds):
+    """numeric value of decimal digit bytes; the same digits always give the same term, and the term remembers its digits"""
     if all(not is_sym(d) for d in ds): return int(bytes(ds)) if ds else 0
+    key = tuple(d.get_id() if is_sym(d) else ('c', d) for d in ds)
+    hit = _DVAL.get(key)
+    if hit is not None: return hit
     acc = z3.BitVecVal(0, W)
     for d in ds:
         acc = acc * 10 + (z3.ZeroExt(W - 8, b2z(d) - 48))
-    return z3.simplify(acc)
+    acc = z3.simplify(acc)
+    _DVAL[key] = acc; _DIG[acc.get_id()] = list(ds)
+    return acc
+
+
+def digits_of(n, width):
+    """digits a term was built from (left-padded with '0'), when it has that provenance"""
+    if not is_sym(n): return None
+    ds = _DIG.get(n.get_id())
+    if ds is None or len(ds) > width: return None
+    return [48] * (width - len(ds)) + list(ds)
 
 
 def perr(): return err(Agg('ParseError', 0, []))
@@ -472,7 +493,7 @@ def zone_offset_for_utc(ex, zone, utc_naive):
 def m_from_utc_datetime(ex, site, a):
     zone = znorm(deref(ex, a[0])); n = deref(ex, a[1])
     off = zone_offset_for_utc(ex, zone, n)
-    return cdt(shift_naive(n, off), off, zone)
+    return cdt(shift_naive(n, off), off, zone, naive_secs(n) if is_sym(off) else None)
 
 
 @model('<Utc as TimeZone>::from_local_datetime', '<FixedOffset as TimeZone>::from_local_datetime', '<Tz as TimeZone>::from_local_datetime')
@@ -510,7 +531,7 @@ def m_with_nanosecond(ex, site, a):
     dt = deref(ex, a[0]); ns = a[1]
     if not ex.branch(ule(ns, 1999999999)): return none()
     n = dt.fields[0]; t = n.fields[1]
-    return some(cdt(ndt(n.fields[0], nt(t.fields[0], t.fields[1], t.fields[2], ns)), dt.fields[1], dt.fields[2]))
+    return some(cdt(ndt(n.fields[0], nt(t.fields[0], t.fields[1], t.fields[2], ns)), dt.fields[1], dt.fields[2], dt.fields[3] if len(dt.fields) > 3 else None))
 
 
 @model('DateTime::with_timezone')
@@ -518,9 +539,10 @@ def m_with_timezone(ex, site, a):
     dt = deref(ex, a[0]); zone = znorm(deref(ex, a[1]))
     off = zone_offset_for_utc(ex, zone, None)
     old = dt.fields[1]
-    if (not is_sym(off)) and (not is_sym(old)) and off == old: return cdt(dt.fields[0], off, zone)
+    if (not is_sym(off)) and (not is_sym(old)) and off == old: return cdt(dt.fields[0], off, zone, dt.fields[3] if len(dt.fields) > 3 else None)
     delta = sx(off) - sx(old)
-    return cdt(shift_naive(dt.fields[0], delta), off, zone)
+    opaque = ex.side.get('named_zone') and is_sym(off)
+    return cdt(shift_naive(dt.fields[0], delta), off, zone, utc_secs(dt) if opaque else None)
 
 
 @model('DateTime::naive_local')
@@ -551,6 +573,8 @@ def m_timestamp_millis(ex, site, a):
 
 def two(n):
     if not is_sym(n): return [48 + n // 10 % 10, 48 + n % 10]
+    p = digits_of(n, 2)
+    if p is not None: return p
     n = zz(n)
     return [z3.simplify(z3.Extract(7, 0, z3.URem(udiv(n, 10), 10)) + 48), z3.simplify(z3.Extract(7, 0, z3.URem(n, 10)) + 48)]
 
@@ -583,6 +607,8 @@ def m_fixed_to_string(ex, site, a):
 
 def four(y):
     if not is_sym(y): return [ord(c) for c in '%04d' % y]
+    p = digits_of(y, 4)
+    if p is not None: return p
     y = zz(y)
     return [z3.simplify(z3.Extract(7, 0, z3.URem(udiv(y, k), 10)) + 48) for k in (1000, 100, 10, 1)]
 
@@ -740,6 +766,9 @@ def dt_to_vj(cz, dt):
     off = c(dt.fields[1])
     if off >= 1 << 31: off -= 1 << 32
     secs = days_from_civil(loc[0], loc[1], loc[2]) * 86400 + loc[3] * 3600 + loc[4] * 60 + loc[5] - off
+    if len(dt.fields) > 3 and dt.fields[3] is not None:
+        secs = c(dt.fields[3])
+        if secs >= 1 << 63: secs -= 1 << 64
     ns = loc[6]
     z = dt.fields[2]
     name = z.fields[0] if z.ty == 'Tz' else ('UTC' if z.ty == 'Utc' else '?fixed')
